@@ -1,7 +1,7 @@
 #!/venv/bin/python
 """C05 (messages): same exception type, different message text than CPython 3.12 for
   * UnboundLocalError (unassigned local), * AttributeError (unassigned attribute of a native class),
-  * ValueError (star-unpacking too few values), * ValueError (list.index of a missing value).
+  * ValueError (star-unpacking too few values), * ValueError (list.index of a missing value), * IndexError (str index out of range).
 exit 1 = at least one message differs."""
 import os, sys
 sys.path.insert(0, os.path.dirname(os.path.abspath(__file__)))
@@ -27,5 +27,8 @@ def unpack(xs: list[int]) -> int:
 
 def index(xs: list[int], v: int) -> int:
     return xs.index(v)
+
+def stridx(s: str, i: int) -> str:
+    return s[i]
 '''
-report(both(SRC, ["local(False)", "attr()", "unpack([])", "index([1], 5)"]), lambda a, b: a[:3] != b[:3])
+report(both(SRC, ["local(False)", "attr()", "unpack([])", "index([1], 5)", "stridx('ab', 7)"]), lambda a, b: a[:3] != b[:3])
